@@ -4,7 +4,7 @@ import lexgen
 
 PID = "C19"
 TARGETS = ["Run.vo", "Lists_proofs.vo"]
-IMPORTS = "From VF Require Import Base Show Gen_Errors Lexer Lists Run."
+IMPORTS = "From VF Require Import Base Show Gen_Errors Lexer Grammar Lists ListGrammar Run."
 ALLOWED_AXIOMS = []
 PROFILES = ["debug", "release"]
 RULE = ("expressions rendered from the SCPI-99 8.3 list grammars: numeric lists of 0..8 entries (single values and a:b ranges; "
@@ -78,6 +78,56 @@ def gen_nlist(r):
     return ",".join(ents).encode(), " ".join(exp) or "-"
 
 
+# ---- canonical grammar stream with the AST handed to the Coq specification (ListGrammar.v) ----
+def coq_number(ns):
+    """ns: (sign, int, frac|None, exp|None) -> Grammar.number"""
+    return lexgen.coq_number(("num",) + ns)
+
+
+def gen_number(r):
+    sign = r.choice([None, None, b"+", b"-"])
+    k = r.randint(0, 2)
+    ip, fr = (digits(r).encode(), None) if k == 0 else ((digits(r).encode(), digits(r, 0, 3).encode()) if k == 1 else (b"", digits(r).encode()))
+    ex = (r.choice([b"e", b"E"]), r.choice([None, b"+", b"-"]), digits(r, 1, 2).encode()) if r.random() < 0.3 else None
+    return (sign, ip, fr, ex)
+
+
+def gen_nl_ast(r):
+    ents = [("r", gen_number(r), gen_number(r)) if r.random() < 0.3 else ("n", gen_number(r)) for _ in range(r.choice([0, 1, 2, 3, 5, 8]))]
+    rn = lambda n: lexgen.render_number(("num",) + n)
+    txt = b",".join(rn(e[1]) + (b":" + rn(e[2]) if e[0] == "r" else b"") for e in ents)
+    exp = " ".join(("r%s:%s" % (hexs(rn(e[1])), hexs(rn(e[2]))) if e[0] == "r" else "n" + hexs(rn(e[1]))) for e in ents) or "-"
+    coq = coq_list([("NLRange %s %s" % (coq_number(e[1]), coq_number(e[2])) if e[0] == "r" else "NLNum %s" % coq_number(e[1])) for e in ents])
+    return txt, exp, coq
+
+
+def gen_cl_ast(r):
+    ents = []
+    for _ in range(r.choice([0, 1, 2, 3, 5, 8])):
+        k = r.choice("ssrrp")
+        vals = lambda n: [r.choice([0, 1, -1, 7, 12, 999, -40, 2**63 - 1, -2**63, r.randint(-10**6, 10**6)]) for _ in range(n)]
+        if k == "s": ents.append(("s", vals(r.randint(1, 3))))
+        elif k == "r":
+            n = r.randint(1, 3); ents.append(("r", vals(n), vals(n)))
+        else:
+            q = r.choice([b"'", b'"']); ents.append(("p", q, bytes(r.choice([r.randint(0, 127), 44, 58, 33, 39, 34]) for _ in range(r.randint(0, 6)))))
+    rs = lambda v: b"!".join(str(x).encode() for x in v)
+    def rend(e):
+        if e[0] == "s": return rs(e[1])
+        if e[0] == "r": return rs(e[1]) + b":" + rs(e[2])
+        return e[1] + e[2].replace(e[1], e[1] + e[1]) + e[1]
+    def expect(e):
+        if e[0] == "s": return "s" + spec_expect(len(e[1]), e[1])
+        if e[0] == "r": return "r" + spec_expect(len(e[1]), e[1]) + "~" + spec_expect(len(e[2]), e[2])
+        return "p" + hexs(e[2].replace(e[1], e[1] + e[1]))
+    zl = lambda v: coq_list([coq_Z(x) for x in v])
+    def coq(e):
+        if e[0] == "s": return "CLSpec %s" % zl(e[1])
+        if e[0] == "r": return "CLRange %s %s" % (zl(e[1]), zl(e[2]))
+        return "CLPath %d%%N %s" % (e[1][0], coq_bytes(e[2]))
+    return b"@" + b",".join(rend(e) for e in ents), " ".join(expect(e) for e in ents) or "-", coq_list([coq(e) for e in ents])
+
+
 def corpus():
     C = lambda e: mk("clist", e, src="corpus"); N = lambda e: mk("nlist", e, src="corpus")
     return [C(b"@1!2"), C(b"@1!2!3"), C(b"@1!!2"), C(b"@1,2,3:5"), C(b"@1!12,3!4:5!6,'POTATO'"), C(b"@"), C(b"1"), C(b""), C(b"@,1"), C(b"@1,,2"), C(b"@1:2:3"),
@@ -94,6 +144,9 @@ def generate(rng, tier):
     for _ in range(n):
         e, x = gen_clist(rng); out.append(mk("clist", e, x)); wf.append(("clist", e))
         e, x = gen_nlist(rng); out.append(mk("nlist", e, x)); wf.append(("nlist", e))
+    for _ in range(n // 2):
+        e, x, cq = gen_nl_ast(rng); c = mk("nlist", e, x, "gen"); c["coq"] = "run_nlspec %s %s" % (cq, coq_bytes(e)); out.append(c)
+        e, x, cq = gen_cl_ast(rng); c = mk("clist", e, x, "gen"); c["coq"] = "run_clspec %s %s" % (cq, coq_bytes(e)); out.append(c)
     for _ in range(n):
         k, e = rng.choice(wf)
         m, how = lexgen.corrupt(rng, e)
@@ -110,7 +163,7 @@ def generate(rng, tier):
 
 def harness_line(c): return c["line"]
 def case_of_line(l): f = l.split(" "); return mk(f[0], unhex(f[1] if len(f) > 1 else "-"), None, "replay")
-def coq_term(c): return "run_%s %s" % (c["kind"], coq_bytes(c["expr"]))
+def coq_term(c): return c.get("coq") or "run_%s %s" % (c["kind"], coq_bytes(c["expr"]))
 
 
 def obs(s):
